@@ -355,6 +355,10 @@ def gen_model_raw(rng, *, max_periods=3, allow_stochastic=True, allow_filter=Tru
                set().union(*[set(f["args"]) for f in funcs if f["name"].endswith(("_constraint", "_filter"))] or [set()])]
     for x in missing:
         body = ["+", body, ["*", X.c(Fraction(rng.choice([1, 3, 5, -2]), rng.choice([1, 2]))), X.v(x)]]
+    if "separating" in force:
+        # the value must tell the states apart (layout checks): a linear term with a different weight per state
+        for i, (sn, _) in enumerate(states):
+            body = ["+", body, ["*", X.c(Fraction(2 * i + 3, 8)), X.v(sn)]]
     if "int_utility" in force:
         # integer valued: discrete variables, integral constants, no parameters
         body = X.gen_num(rng, allvars, 3)
